@@ -82,6 +82,13 @@ def owners_pickles(spec, impl) -> set[str]:
 
 def owners_errors(spec, impl) -> set[str]:
     own = {"C14"}
+    kinds = {e.get("kind") for e in list(spec) + list(impl) if isinstance(e, dict)}
+    if "ragged" in kinds:
+        own |= {"C12"}          # "a table whose rows differ in cell count is rejected with an error at the first deviating row"
+    if "lang" in kinds:
+        own |= {"C05"}          # "an unknown dialect is reported as an error at the header"
+    if "tag" in kinds:
+        own |= {"C04"}
     for p in diff_paths(spec, impl):
         keys = [k for k in p if isinstance(k, str)]
         if keys and keys[-1] in ("line", "col"):
@@ -134,8 +141,9 @@ def trace_findings(result: dict, rec: dict) -> list[tuple[set[str], str, dict]]:
         else:
             own = set()
         out.append((own or set(TRACE_PROPS), f"step:{c}@line{st['line']}", d))
-        return out
     e = result["end"]
+    if e is None:
+        return out
     v, det = e["v"], e["detail"]
     if not v["outcome"]:
         out.append(({"C01", "C14"}, "end:outcome", det["outcome"][0] if det["outcome"] else {}))
